@@ -199,6 +199,21 @@ CHECKS: Dict[str, Dict[str, str]] = {
         note="Trusted: finite lookup list; DSDLDefinition equality is by (full name, version).",
         design="3/C09",
     ),
+    "C10": dict(
+        technique="static analysis: order-taint dataflow (unordered kinds: sets, set comprehensions, rglob) with sorted()/file_sort as "
+        "sanitisers and commutative loop bodies as safe consumers; sign analysis of the sort key; extracted transition table of "
+        "the direct/transitive bookkeeping explored over its abstract states; truth table of the nested-root predicate",
+        text="Decides: every unordered collection in the four reader modules is sorted before it is returned or drives an "
+        "order-sensitive loop (interprocedural through arguments); the key is (name up, major down, minor down) with no reverse "
+        "flag; read_namespace lists both suffixes recursively under exactly the root and returns only `.direct`; the reader "
+        "loop's effect on (in direct, in transitive) for every (cached, level) state keeps the sets disjoint, promotes requested "
+        "files, never demotes and files dependencies as transitive; directories are resolved before de-duplication and "
+        "comparison; the nested/colliding-root predicate equals not SAMEFILE and ((not ALLOW and NAME_CI_EQ) or IS_RELATIVE) on "
+        "all consistent valuations over all ordered pairs. Equality of read_files and read_namespace results is not decided.",
+        note="Trusted: dict iteration is insertion-ordered; which of several simultaneous directory faults is reported first may "
+        "depend on set order (documented exemption: the rejection itself does not).",
+        design="3/C10",
+    ),
 }
 
 NOT_APPLICABLE: Dict[str, str] = {}
